@@ -266,6 +266,11 @@ def run_property(pid, tier, only=None, jobs=16, seed=0, budget_s=None):
         agg[h.name]["roots"] = len(rs)
         for case in rs:
             queue.append((h.name, case, [[]], 3, 5.0, h.witness_cap, seed))
+    import tempfile
+    from pysym import ops as _ops
+    lf = tempfile.NamedTemporaryFile(prefix="pysym_lemmas_", suffix=".jsonl", delete=False)
+    lf.close()
+    _ops.LEMMA_CACHE_FILE = lf.name
     ctx = mp.get_context("fork")
     pool = ctx.Pool(jobs)
     pending = []
@@ -307,6 +312,10 @@ def run_property(pid, tier, only=None, jobs=16, seed=0, budget_s=None):
     finally:
         pool.terminate()
         pool.join()
+        try:
+            os.unlink(lf.name)
+        except OSError:
+            pass
     wall = time.time() - t_start
     return finish(pid, tier, seed, harnesses, agg, funcs, wall, timed_out, kf)
 
